@@ -92,10 +92,17 @@ Definition patch (c : cst) : cst * outcome :=
       end
   end.
 
+(* everything that was read is acknowledged and the stream has ended: nothing is left to send *)
+Definition settle (c : cst) : cst :=
+  if final c && (chunkStart c >=? bufStart c + zlen (buf c)) then
+    mkC (rest c) (digested c) (bufStart c) (buf c) (bcap c) (chunkStart c) 0 (final c) (retry c) (sdata c) (script c) (log c)
+  else c.
+
 (* one iteration of the outer loop *)
 Definition iterate (c : cst) : cst * outcome :=
   let c := read_ahead (S (length (rest c))) c in
   let c := reslice c in
+  let c := settle c in
   if (chunkSize c >? 0) && negb (chunkStart c =? bufStart c) then (c, EMismatchOffsets)
   else if chunkSize c >? 0 then patch c else (c, Running).
 
@@ -135,4 +142,21 @@ Definition upload (fuel : nat) (stream : bytes) (cap : nat) (held : bytes) (sc :
       | e => (e, None, rev (log c))
       end
   | e => (e, None, rev (log c))
+  end.
+
+(* the loop as it was before the repair recorded in known-findings.txt: without [settle] the last short read left
+   chunkSize > 0 while everything was already acknowledged, and the offset check refused to go on *)
+Definition iterate_old (c : cst) : cst * outcome :=
+  let c := read_ahead (S (length (rest c))) c in
+  let c := reslice c in
+  if (chunkSize c >? 0) && negb (chunkStart c =? bufStart c) then (c, EMismatchOffsets)
+  else if chunkSize c >? 0 then patch c else (c, Running).
+Fixpoint loop_old (fuel : nat) (c : cst) : cst * outcome :=
+  match fuel with
+  | O => (c, OutOfFuel)
+  | S f =>
+      if continue c then
+        let '(c', o) := iterate_old c in
+        match o with Running => loop_old f c' | _ => (c', o) end
+      else (c, Done)
   end.
